@@ -11,7 +11,7 @@ CONSTANTS MaxDepth, SecondDepth,
           Family     \* which binders / readers populate the trees: "scope" | "vars" | "ref" | "kw" | "deep"
 
 L(k, a) == N(k, a, <<>>)
-Leafs == CASE Family = "scope" -> {L("sbind", "x"), L("abind", "x"), L("read", "x"), L("fail", ""), L("gbind", "g"), L("gread", "g")}
+Leafs == CASE Family = "scope" -> {L("sbind", "x"), L("abind", "x"), L("read", "x"), L("fail", ""), L("gbind", "g"), L("gread", "g"), L("nest", "")}
            [] Family = "kw"    -> {L("sbind2", "x"), L("abind", "x"), L("nbind", "x"), L("read", "x"), L("read", "y"), L("fail", "")}
            [] Family = "vars"  -> {L("vbind", "v"), L("vset", "v"), L("vread", "v"), L("fail", "")}
            [] Family = "ref"   -> {L("refuse", "r"), L("mark", ""), L("fail", "")}
